@@ -8,11 +8,13 @@ import (
 	"encoding/json"
 	"flag"
 	"fmt"
+	"hash/fnv"
 	"os"
 	"path/filepath"
 	"sort"
 	"strings"
 
+	"go.uber.org/thriftrw/ast"
 	"go.uber.org/thriftrw/idl"
 
 	"verifharness/internal/lineproto"
@@ -216,8 +218,96 @@ func (c *checker) checkAny(doc []byte, how string) implResult {
 			c.oracle("C11 walk does not visit every node once with its true parent", "walk "+hx(string(doc)), wa, msg)
 		}
 		c.expect("C11 ast.Walk vs model walk", "walk "+hx(string(doc)), wa)
+		// a visitor that hands out a fresh visitor per node and prunes some sub-trees
+		for salt := uint32(0); salt < 2; salt++ {
+			pa, pv, ppan := implWalkPruning(res, salt)
+			if ppan != "" {
+				c.oracle("C11 walk panic", "walk "+hx(string(doc)), pa, "ast.Walk panicked with a visitor that returns nil / a fresh visitor")
+				break
+			}
+			if msg := compareVisits(prunedWalk(visits, salt), pv); msg != "" {
+				c.oracle("C11 walk with a pruning visitor", "walk "+hx(string(doc)), pa,
+					"the walk must visit exactly the nodes outside the pruned sub-trees, each with the visitor returned for its parent: "+msg)
+				break
+			}
+		}
 	}
 	return res
+}
+
+// pruneAt decides (from the label only) whether the visitor returns nil at a node.
+func pruneAt(label string, depth int, salt uint32) bool {
+	if depth == 0 {
+		return false
+	}
+	h := fnv.New32a()
+	h.Write([]byte(label))
+	return (h.Sum32()^salt*2654435761)%4 == 0
+}
+
+// prunedWalk is what a pruning visitor must see, given the full pre-order walk.
+func prunedWalk(full []visit, salt uint32) []visit {
+	var out []visit
+	skip := -1
+	for _, v := range full {
+		if skip >= 0 && v.depth > skip {
+			continue
+		}
+		skip = -1
+		out = append(out, v)
+		if pruneAt(v.label, v.depth, salt) {
+			skip = v.depth
+		}
+	}
+	return out
+}
+
+// pruningVisitor carries the depth it was created for; Visit returns a fresh
+// visitor for the children, or nil to prune.
+type pruningVisitor struct {
+	depth  int
+	salt   uint32
+	d      *dumper
+	visits *[]visit
+	bad    *string
+}
+
+func (p *pruningVisitor) Visit(w ast.Walker, n ast.Node) ast.Visitor {
+	parent := "-"
+	if q := w.Parent(); q != nil {
+		parent = p.d.label(q)
+	}
+	label := p.d.label(n)
+	depth := len(w.Ancestors())
+	if depth != p.depth && *p.bad == "" {
+		*p.bad = fmt.Sprintf("%s at depth %d was visited with the visitor returned at depth %d", label, depth, p.depth-1)
+	}
+	*p.visits = append(*p.visits, visit{label: label, parent: parent, depth: depth})
+	if pruneAt(label, depth, p.salt) {
+		return nil
+	}
+	return &pruningVisitor{depth: p.depth + 1, salt: p.salt, d: p.d, visits: p.visits, bad: p.bad}
+}
+
+func implWalkPruning(r implResult, salt uint32) (answer string, visits []visit, panicked string) {
+	defer func() {
+		if p := recover(); p != nil {
+			panicked = fmt.Sprint(p)
+			answer = "panic " + panicked
+		}
+	}()
+	bad := ""
+	ast.Walk(&pruningVisitor{salt: salt, d: &dumper{info: r.info}, visits: &visits, bad: &bad}, r.prog)
+	parts := make([]string, len(visits))
+	for i, v := range visits {
+		parts[i] = v.label + "^" + v.parent
+	}
+	answer = fmt.Sprintf("ok %d %s", len(visits), strings.Join(parts, " "))
+	if bad != "" {
+		// reported through compareVisits' caller as a mismatch of the visit list
+		visits = append(visits, visit{label: "wrong-visitor: " + bad, depth: -1})
+	}
+	return answer, visits, ""
 }
 
 // compareVisits: the walk must be exactly the pre-order of the tree (same nodes, same depths);
